@@ -157,8 +157,14 @@ def run_single(case, ctx):
     torus = tuple(bool(v) for v in rng.integers(0, 2, size=D))
     _mon.take()
     outs = {}
+    # every other case hands over the group elements in ONE reusable NumPy buffer that is overwritten in place between the
+    # calls (a caller accumulating g <- r @ g): the result may depend on the buffer's contents only, never on its identity
+    buf = np.zeros((D, D), dtype=G[0].dtype) if case["i"] % 2 else None
     for gi, g in enumerate(G):
         try:
+            if buf is not None:
+                buf[...] = g
+                g = buf
             if False:
                 pass
             else:
@@ -283,8 +289,12 @@ def run_multi(case, ctx):
     _mon.take()
     mi = geom.MultiImage(data, D, torus)
     gsel = list(range(len(G))) if (D < 3 or ctx["tier"] == "thorough") else sorted(set([0] + rng.choice(len(G), size=16, replace=False).tolist()))
+    buf = np.zeros((D, D), dtype=G[0].dtype) if case["i"] % 2 else None
     for gi in gsel:
         g = G[gi]
+        if buf is not None:
+            buf[...] = g  # one reusable buffer overwritten in place (see run_single)
+            g = buf
         try:
             out = mi.times_group_element(g)
             evals += 1
